@@ -30,8 +30,8 @@ TransOK(c, zero, bag, e, post) ==
 ObsWF(c, zero, o) ==
   /\ o.size = Len(o.vals)
   /\ PeekOK(c, o.vals, o.peek, zero)
-  /\ SameBag(o.iter, o.vals)
-  /\ (o.vals # <<>> => o.vals[1] = o.peek[1] /\ o.iter[1] = o.peek[1])
+  /\ (o.hasiter => SameBag(o.iter, o.vals))             \* (the scale scripts walk the iterator in every 8th size only)
+  /\ (o.vals # <<>> => o.vals[1] = o.peek[1] /\ (o.hasiter => o.iter[1] = o.peek[1]))
 
 C06(pre, e) ==
   /\ Completed(e)
